@@ -6,6 +6,7 @@ VERIF = os.path.dirname(HERE)
 sys.path.insert(0, HERE)
 import build as B
 import streams as S
+import dbfiles_props as DBP
 
 CORE_N = 320          # histories of the core stream (quick); thorough multiplies
 
@@ -32,16 +33,35 @@ PROPS = {
     "C16": dict(streams=[("usage", 400)], coq=[], full=False),
     "C17": dict(streams=[("malformed", 320), ("kf", 120)], coq=[], full=False),
     "C18": dict(streams=[("two-app", 160), ("usage", 160)], coq=[], full=False),
-    "C19": dict(engine="dbfiles", coq=[], full=False),
-    "C20": dict(engine="dbfiles", coq=[], full=False),
+    "C19": DBP.C19,
+    "C20": DBP.C20,
 }
+
+# which Coq property files decide which property, and whether the full statement is proved
+import proofmap as PM
+for _pid, _info in PM.PROOFS.items():
+    if _pid in PROPS and isinstance(PROPS[_pid], dict) and PROPS[_pid].get("engine") != "dbfiles":
+        PROPS[_pid].update(_info)
+
+# scripted focus streams (scripts.py) and two-run (metamorphic) monitors on the real code
+# (metamorphic.py): the `extra` hook of check.check_property
+PROPS["C04"]["streams"] = PROPS["C04"]["streams"] + [("holes", 64)]
+import scripts as _SCR
+PROPS["C04"]["extra"] = _SCR.extra_C04          # every single hole k in 1..999
+PROPS["C17"]["streams"] = PROPS["C17"]["streams"] + [("discipline", 120), ("unicode", 48)]
+PROPS["C03"]["streams"] = PROPS["C03"]["streams"] + [("reincarnate", 160)]   # (with and without a usage database)
+PROPS["C07"]["streams"] = PROPS["C07"]["streams"] + [("crowd", 120), ("kf", 80)]
+PROPS["C08"]["streams"] = PROPS["C08"]["streams"] + [("restart", 160)]
+import metamorphic as MM
+for _pid in MM.CHECKS:
+    PROPS[_pid]["extra"] = MM.extra(_pid)
 
 STALE_PROPS = ("C02", "C11", "C12", "C13")
 
 KF_MANIFEST = {"1": "IntegrityError", "2": "crowded", "3": "ValueError"}
 
 
-def proof_status(pid, bst):
+def proof_status(pid, bst, tier="quick"):
     """are the Coq obligations behind this property built from the current sources?"""
     spec = PROPS[pid]
     broken = []
@@ -49,13 +69,18 @@ def proof_status(pid, bst):
         broken.append("forbidden constructs: %s" % bst["forbidden"][:5])
     if not bst.get("gen", {}).get("ok", True):
         broken.append("instance generation failed: %s" % bst["gen"].get("error"))
+    if spec.get("engine") != "dbfiles" and not bst.get("selfcheck", {}).get("ok", True):
+        broken.append("extracted model runner disagrees with vm_compute inside Coq: %s"
+                      % str(bst.get("selfcheck", {}).get("error"))[-300:])
     files = set()
     for f in spec.get("coq", []):
         for d in B.cone(f):
             files.add(d)
-    # the executable model itself is an obligation of every property
-    for d in B.cone("theories/Extract.v"):
-        files.add(d)
+    # the executable model itself is an obligation of every property (the database.py
+    # model of the dbfiles engine is evaluated inside Coq, not extracted)
+    if spec.get("engine") != "dbfiles":
+        for d in B.cone("theories/Extract.v"):
+            files.add(d)
     obligations = 0
     discharged = 0
     names = []
@@ -72,6 +97,12 @@ def proof_status(pid, bst):
         if bst["built"].get(f):
             rc, out = B.print_assumptions(f)
             assumptions[f] = out.strip()
+            if tier == "thorough":
+                # independent re-check of the compiled files (coqchk) + its own list of axioms
+                chk = B.coqchk(f, bst.get("hash", "nohash"))
+                assumptions[f + " [coqchk -o]"] = chk.strip()
+                if not chk.startswith("exit=0") or "* Axioms: <none>" not in chk:
+                    broken.append("coqchk does not accept %s or reports axioms: %s" % (f, chk[:300]))
             if rc != 0:
                 broken.append("%s fails when compiled alone" % f)
             elif "Axioms:" in out and not spec.get("axioms_ok"):
@@ -107,8 +138,8 @@ def evaluate(pid, results, known_for):
         elif r.get("meta", {}).get(pid):
             st["failures"].append(("monitor", r, r["meta"][pid]))
         else:
-            if not r.get("div"):
-                st["agree"] += 1
+            if not r.get("div") and not r.get("no_model"):
+                st["agree"] += 1      # (two-run results compare code with code, not with the model)
         if len(st["samples"]) < 2 and r.get("sample"):
             st["samples"].append(r["sample"])
     # monitor failures first, shortest history first
@@ -143,18 +174,24 @@ def evidence(pid, tier, seed, bst, proof, stats, streams_used, wall, nviol):
         "trusted_base": [
             "Coq 8.16.1 kernel (coqc; vm_compute used; no native_compute)",
             "axioms per Print Assumptions: " + (json.dumps(proof["assumptions"]) if proof["assumptions"] else "no property file yet"),
-            "extraction: ExtrOcamlBasic only (bool option unit list prod sumbool sumor; andb orb inlined); ocaml/driver.ml string conversion",
+            "extraction: ExtrOcamlBasic only (bool option unit list prod sumbool sumor; andb orb inlined); ocaml/driver.ml string conversion; "
+            "validated on this build against vm_compute inside Coq (harness/selfcheck.py): %s" % json.dumps(bst.get("selfcheck")),
             "harness/gen_instances.py (constants by ast, SQL scripts by statement classifier), fail-closed",
             "correspondence check harness/*.py (differential testing against /repo/src)",
-        ] + ASSUME_HISTORY,
+        ] + ASSUME_HISTORY if not spec.get("trusted") else [
+            "axioms per Print Assumptions: " + json.dumps(proof["assumptions"])] + spec["trusted"] + spec["assumptions"],
         "theorems": proof["theorems"],
         "files": proof["files"],
         "traces_validated_against_impl": stats["agree"],
         "evaluations": max(1, stats["events"]),
         "distinct_nontrivial": stats["nontrivial"],
-        "rule": spec.get("rule", "a history is generated adaptively against the real server (seeded); nontrivial = "
-                         "occurrences, counted by the property's monitor, of the situation the property speaks about "
-                         "(e.g. an open that replayed a stored message)"),
+        "rule": spec.get("rule", "a history is generated adaptively against the real server (seeded); evaluations = events executed on "
+                         "the real code and the model; distinct_nontrivial = number of distinct (history, event position[, "
+                         "object]) points, counted by the property's monitor while it ran, at which the situation the property "
+                         "speaks about actually occurred (e.g. for C01 an open that replayed at least one stored message, for "
+                         "C09 a frame whose emission was checked against the second reader, for C12 a mailbox examined at a "
+                         "sweep) -- positions are distinct by construction; identical-looking situations at different points "
+                         "of different histories are counted separately"),
         "samples": stats["samples"] or [{"note": "no sample kept"}],
         "streams": [{"name": n, "histories": k} for n, k in streams_used],
         "distribution": dict(stats["kinds"]),
@@ -168,5 +205,5 @@ def evidence(pid, tier, seed, bst, proof, stats, streams_used, wall, nviol):
                                    spec.get("missing", "The full history-level theorem is not proved yet, hence level `other`."))),
     }
     return {"property_id": pid, "tier": tier if tier in ("quick", "thorough") else "quick", "seed": seed,
-            "level": level, "coverage": cov, "assumptions": ASSUME_HISTORY, "wall_s": round(wall, 2),
+            "level": level, "coverage": cov, "assumptions": spec.get("assumptions", ASSUME_HISTORY), "wall_s": round(wall, 2),
             "violations": nviol}
